@@ -69,7 +69,9 @@ fn module_name(src: usize, dst: usize, relative: bool, stdlib_like: bool) -> Str
 
 impl ImportGraph {
     pub fn to_ws(&self) -> Ws {
-        let mut files: Vec<FileSpec> = nodes(self.stdlib_like_names).iter().enumerate().map(|(i, n)| FileSpec::new(n, vec![Item::fixture(FX[i], &[])])).collect();
+        // every helper module also defines `shared`: which one a file provides after importing several of them
+        // is decided by the order of its import statements (the last binding wins)
+        let mut files: Vec<FileSpec> = nodes(self.stdlib_like_names).iter().enumerate().map(|(i, n)| FileSpec::new(n, if i == 0 { vec![Item::fixture(FX[i], &[])] } else { vec![Item::fixture(FX[i], &[]), Item::fixture("shared", &[])] })).collect();
         for src in 0..4 {
             // plugin declarations of one module are merged into one assignment (several edges)
             let mut plugins: Vec<String> = Vec::new();
@@ -100,7 +102,7 @@ impl ImportGraph {
         files.push(FileSpec::new("pkg/__init__.py", vec![]));
         files.push(FileSpec::new("decoy_mod.py", vec![Item::fixture("decoy_fx", &[])]));
         // the test module may import fixtures itself: they become fixtures of that module
-        let mut test_items = vec![Item::test("t", &["c0", "f1", "f2", "f3", "decoy_fx"])];
+        let mut test_items = vec![Item::test("t", &["c0", "f1", "f2", "f3", "decoy_fx", "shared"])];
         for (s, d, k) in &self.edges {
             if *s != 4 {
                 continue;
@@ -229,6 +231,9 @@ fn check_graph(rep: &Report, g: &ImportGraph, scans: &AtomicU64) {
     for e in db.definitions.iter() {
         for d in e.value() {
             let want_file = FX.iter().position(|f| *f == d.name).map(|i| nodes(g.stdlib_like_names)[i]).unwrap_or(if d.name == "decoy_fx" { "decoy_mod.py" } else { "?" });
+            if d.name == "shared" {
+                continue;
+            }
             if rel(&d.file_path, &root) != want_file {
                 rep.violation("imports: fixture attributed to a module that does not define it", &format!("{} recorded in {}", d.name, rel(&d.file_path, &root)), case);
             }
